@@ -1323,10 +1323,60 @@ fn numthreads_of(f: &Func, consts: &Consts) -> Option<Result<(u32, u32, u32), ()
     }
 }
 
+/// ((block index, member name) declared in `struct InlineDescriptorN { ... }`, (block index, member name) read through
+/// `g_inlineDescriptorN.<member>`), from the emitted text
+pub fn inline_descriptor_names(text: &str) -> (Vec<(String, String)>, Vec<(String, String)>) {
+    let mut members = Vec::new();
+    let mut uses = Vec::new();
+    let ident = |s: &str| -> String { s.chars().take_while(|c| c.is_ascii_alphanumeric() || *c == '_').collect() };
+    let mut rest = text;
+    while let Some(i) = rest.find("struct InlineDescriptor") {
+        rest = &rest[i + "struct InlineDescriptor".len()..];
+        let block = ident(rest);
+        let Some(open) = rest.find('{') else { break };
+        let Some(close) = rest[open..].find("};") else { break };
+        for line in rest[open + 1..open + close].lines() {
+            let line = line.trim().trim_end_matches(';');
+            if let Some(name) = line.rsplit(|c: char| c.is_whitespace()).next() {
+                let name = name.split('[').next().unwrap_or(name);
+                if !name.is_empty() {
+                    members.push((block.clone(), name.to_string()));
+                }
+            }
+        }
+        rest = &rest[open + close..];
+    }
+    let mut rest = text;
+    while let Some(i) = rest.find("g_inlineDescriptor") {
+        rest = &rest[i + "g_inlineDescriptor".len()..];
+        let block = ident(rest);
+        let after = &rest[block.len()..];
+        if let Some(m) = after.strip_prefix('.') {
+            uses.push((block, ident(m)));
+        }
+    }
+    (members, uses)
+}
+
 fn examine_pipe(tgt: Tgt, pipe: &Pipe, src: Option<&Prog>, id: &PipeId, report: &mut Report) -> (Vec<Finding>, u64) {
     let mut findings: Vec<Finding> = Vec::new();
     let prefix = if tgt.is_hlsl() { "hlsl" } else { "msl" };
     let mut compared: u64 = 0;
+
+    // ---- the inline descriptor blocks of Vulkan with buffer addresses: every `g_inlineDescriptorN.<m>` names a member --------
+    if tgt.is_hlsl() {
+        let (members, uses) = inline_descriptor_names(&pipe.source);
+        for (block, member) in &uses {
+            report.count("hlsl:inline-descriptor-member-uses");
+            if !members.iter().any(|(b, m)| b == block && m == member) {
+                findings.push(Finding {
+                    signature: "hlsl:inline-descriptor-member-unknown".to_string(),
+                    summary: format!("the emitted source reads `g_inlineDescriptor{}.{}` but struct InlineDescriptor{} declares no such member", block, member, block),
+                    detail: Json::obj().set("declared", Json::from(members.iter().filter(|(b, _)| b == block).map(|(_, m)| m.clone()).collect::<Vec<String>>())),
+                });
+            }
+        }
+    }
 
     // ---- read the emitted program ---------------------------------------------------------------
     let tree_prog = pipe.tree.as_ref().map(Prog::collect);
